@@ -28,6 +28,10 @@ func main() {
 		genWorker(os.Args[2:])
 		return
 	}
+	if os.Args[1] == "fuzzworker" {
+		fuzzWorker(os.Args[2])
+		return
+	}
 	if os.Args[1] == "warmcache" {
 		os.Exit(warmCache())
 	}
